@@ -16,6 +16,8 @@ MUTANTS = [
  ("sig-ignored", ("ELSE IF r.sig # SigOf(k) THEN RunRule(k, S, \"SignatureChanged\", NoKey)", "ELSE IF FALSE THEN RunRule(k, S, \"SignatureChanged\", NoKey)"), "MC_BS1.tla", "MC_BS1_c09.cfg", {"OutputsClean", "SeenCurrent"}),
  ("missing-command-silent", ("IF c \\notin Cmds THEN Finish(S, k, VInvalid, TRUE, <<>>)", "IF c \\notin Cmds THEN Finish(S, k, VInvalid, FALSE, <<>>)"), "MC_BS1.tla", "MC_BS1_quick.cfg", set()),
  ("tree-children-ignored", ("[q \\in kids |-> <<F[q].s, IF F[q].t = \"dir\" THEN TreeObs(F, q, filt) ELSE <<>> >>] >>", "[q \\in kids |-> <<0, IF F[q].t = \"dir\" THEN TreeObs(F, q, filt) ELSE <<>> >>] >>"), "MC_BS2.tla", "MC_BS2_quick.cfg", set()),
+ ("timestamp-constant", ("THEN 0 - (epoch + 2) ELSE -1", "THEN 0 - 2 ELSE -1"), "MC_BS4.tla", "MC_BS4_quick.cfg", {"RunTogether", "InPlaceOnce"}),
+ ("mutated-compared", ("IF IsMutated(d.outs[j]) THEN (v.i[j] = 0) = ~Exists(F, PathOf(d.outs[j])) ELSE", "IF FALSE THEN (v.i[j] = 0) = ~Exists(F, PathOf(d.outs[j])) ELSE"), "MC_BS4.tla", "MC_BS4_quick.cfg", {"NullBuildRunsNothing", "NoSpuriousRerun"}),
  ("stale-removes-expected", ("/\\ p \\notin SeqToSet(d.expected)\n         /\\ (d.roots", "/\\ TRUE\n         /\\ (d.roots"), "MC_BS3.tla", "MC_BS3_quick.cfg", {"StaleOnlyObsolete"}),
  ("stale-ignores-roots", ("/\\ (d.roots = <<>> \\/ (desc.paths[p].abs /\\ \\E i \\in 1..Len(d.roots) : Under(p, d.roots[i]))))", "/\\ TRUE)"), "MC_BS3.tla", "MC_BS3_quick.cfg", {"StaleOnlyObsolete"}),
  ("stale-keeps-some", ("RemoveAll(F, ps) == IF ps = <<>> THEN F ELSE RemoveAll(RemovePath(F, Head(ps)), Tail(ps))", "RemoveAll(F, ps) == IF ps = <<>> THEN F ELSE RemovePath(F, Head(ps))"), "MC_BS3.tla", "MC_BS3_quick.cfg", {"StaleAllObsolete"}),
